@@ -300,7 +300,8 @@ func (p *envParser) parseMarkerExpr() (marker, error) {
 
 	// ~= can only compare versions. (A left operand that is not a version
 	// is accepted: it simply never satisfies the specifier, see Eval.)
-	if r.version == nil && o == markerOpTildeEqual {
+	// A wildcard does not form a specifier with ~= either.
+	if (r.version == nil || r.version.IsWildcard()) && o == markerOpTildeEqual {
 		return nil, fmt.Errorf("~= must compare versions, got %s %s %s", l, o, r)
 	}
 
